@@ -27,7 +27,11 @@ fn subsets_of(archive: Arc<Vec<u8>>, label: &str) -> Result<(u64, u64, u64), Str
     if n == 0 || n > 12 {
         return Err(format!("archive has {} descriptors (engine wants 1..=12)", n));
     }
-    let server = Server::start(archive.clone(), httpd::well_behaved());
+    // The server answers correctly but paces its bodies differently per subset.
+    let mode = Arc::new(std::sync::atomic::AtomicU8::new(0));
+    let scripts: Vec<httpd::Script> = (0..4u8).map(|m| cc::pacing_script(&model, m, 7)).collect();
+    let m2 = mode.clone();
+    let server = Server::start(archive.clone(), Arc::new(move |req, f| scripts[m2.load(std::sync::atomic::Ordering::SeqCst) as usize % 4](req, f)));
     let url = server.url();
     let rt = crate::exec::rt_multi(2);
     let log = server.log_handle();
@@ -43,6 +47,7 @@ fn subsets_of(archive: Arc<Vec<u8>>, label: &str) -> Result<(u64, u64, u64), Str
                 let d = &model.parsed.dict.descs[i];
                 index.add_chunk(bitar::HashSum::from(&d.checksum[..]), d.source_size as usize, &[0]);
             }
+            mode.store((mask % 4) as u8, std::sync::atomic::Ordering::SeqCst);
             let mark = log.len();
             {
                 let mut st = a.chunk_stream(&index);
@@ -158,7 +163,8 @@ pub fn one_scenario(rep: &Report, idx: usize, sc: &Scenario, keep: bool) -> Opti
             }
         };
         cc::prepare_output(&b, sc);
-        let o = cc::run_clone(&dir, &b, sc, "clone", &Faults::default());
+        let pacing = (idx % 4) as u8;
+        let o = cc::run_clone(&dir, &b, sc, "clone", &Faults { pacing, ..Default::default() });
         rep.eval();
         if o.exit == Exit::Timeout {
             rep.inconclusive("watchdog");
@@ -168,7 +174,8 @@ pub fn one_scenario(rep: &Report, idx: usize, sc: &Scenario, keep: bool) -> Opti
             rep.inconclusive("clone failed on a valid scenario (judged by C01/C03/C05)");
             return Ok(());
         }
-        cc::judge_runs(&b, &o)?;
+        cc::judge_runs(&b, &o).map_err(|e| format!("{} [server pacing mode {}]", e, pacing))?;
+        rep.count(&format!("cli.pacing_mode_{}", pacing), 1);
         rep.count("cli.range_logs_judged", 1);
         rep.count("cli.chunk_data_requests", b.pred.requests.len() as u64);
         if b.pred.requests.len() >= 2 && b.pred.fetch.len() > b.pred.requests.len() {
